@@ -58,14 +58,14 @@ class Dialect:
                 self.bin_prec[o] = pp
                 self.tok_level[o] = prec.get(r[1], ('right', 0))[1]
                 self.op_term[o] = o
-            elif r == ('expr', 'NOT', 'IN', 'expr'):
-                # the two-token operator: numbered 4096 + IN as in Gen/Prec_<d>.lean, announced by NOT
-                o = 4096 + tid['IN']
+            elif len(r) == 4 and r[0] == 'expr' and r[3] == 'expr' and (r[1], r[2]) in M.SPLIT:
+                # a two-token operator (`NOT IN`, `IS NOT` …): numbered as in Gen/Prec_<d>.lean, announced by its first terminal
+                o = M.split_id(tid, r[1], r[2])
                 self.bin_no[o] = n
                 self.bin_prec[o] = pp
-                self.tok_level[o] = prec.get('NOT', ('right', 0))[1]
-                self.op_term[o] = tid['NOT']
-                self.op_rest[o] = tid['IN']
+                self.tok_level[o] = prec.get(r[1], ('right', 0))[1]
+                self.op_term[o] = tid[r[1]]
+                self.op_rest[o] = tid[r[2]]
             elif len(r) == 2 and r[1] == 'expr' and r[0] in M.STRAT_PRE:
                 o = tid[r[0]]
                 self.pre_no[o] = n
@@ -393,7 +393,9 @@ def emit(D):
     ex2 = ('.bin %d (.bin %d (.atom 0) (.atom 1)) (.pre %d (.btw (.atom 2) (.bin %d (.atom 3) (.atom 4)) '
            '(.bin %d (.pre %d (.atom 5)) (.bin %d (.atom 6) (.atom 7)))))'
            % (o('AND'), o('OR'), o('NOT'), o('EQUALS'), o('STAR'), o('MINUS'), o('PLUS')))
-    notin = sorted(D.op_rest) or [o('IN')]
+    notin = [x for x in sorted(D.op_rest) if x // 4096 == M.SPLIT[('NOT', 'IN')]] or [o('IN')]
+    isnot = [x for x in sorted(D.op_rest) if x // 4096 == M.SPLIT[('IS', 'NOT')]] or [o('IS_NOT')]
+    ex4 = '.bin %d (.bin %d (.atom 0) (.bin %d (.atom 1) (.atom 2))) (.pre %d (.atom 3))' % (o('OR'), isnot[0], o('PLUS'), o('NOT'))
     ex3 = '.bin %d (.bin %d (.atom 0) (.bin %d (.atom 1) (.atom 2))) (.atom 3)' % (o('AND'), notin[0], o('PLUS'))
     starts = T.trie({u: e for u, e in ent.items()}, lambda e: '⟨%s,%s⟩' % (kind_term(e[0]), T.hexn(e[1])))
     out = ['-- GENERATED by tools/extract/x_exprsim.py from the live %s parser. Do not edit.' % d,
@@ -436,6 +438,8 @@ def emit(D):
            'def ex2 : Expr := %s' % ex2,
            '/-- `a NOT IN b + c AND d` (`a IN …` where NOT IN is one token) -/',
            'def ex3 : Expr := %s' % ex3,
+           '/-- `a IS NOT b + c OR NOT d` (the two-token `IS NOT` where the grammar has that rule, else the one-token operator) -/',
+           'def ex4 : Expr := %s' % ex4,
            'theorem cert_ok : certOK Tables_%s.tables Prec_%s.P F cert = true := by decide +kernel' % (d, d),
            'end %s' % ns]
     return '\n'.join(out) + '\n'
